@@ -164,9 +164,10 @@ PROPS = {
                            ('node_codec', ['leaf_encode_is_reference_layout_len2', 'split_encode_is_reference_layout_len1', 'node_tags_are_reference_values']),
                            ('f32_codec', ['f32_from_slice_roundtrip_is_bit_exact', 'f32_from_vec_is_bit_exact', 'f32_from_bytes_size_check']),
                            ('distance_side', ['metric_names_are_reference_strings']),
-                           ('header_layout', ['dot_product_header_is_extra_dim_then_norm', 'single_field_headers_are_four_bytes'])]},
+                           ('header_layout', ['dot_product_header_is_extra_dim_then_norm', 'single_field_headers_are_four_bytes']),
+                           ('metadata_codec', ['metadata_encode_is_reference_layout'])]},
         'trusted': ['node value layouts are proved for concrete vector lengths (leaf: 2 floats, split normal: 1 float) with symbolic contents'],
-        'not_decided': ['golden fixtures written by a reference binary (none exists in the sandbox)', 'MetadataCodec byte layout and the roaring serialisation format',
+        'not_decided': ['golden fixtures written by a reference binary (none exists in the sandbox)', 'the roaring serialisation format (external crate; stubbed in the MetadataCodec harness) and MetadataCodec::bytes_decode (CBMC does not finish on CStr / UTF-8 validation; tied to the proved encoder layout by the crate\'s round-trip test)',
                         'NodeCodec::bytes_decode of leaf / split values (CBMC does not finish on the boxed-error path); its parts NodeId::from_bytes, the tags and the vector size checks are proved'],
     },
     'C05': {
